@@ -290,6 +290,12 @@ def execute(sc, ctx):
                 for r in src.requests[:upto]:
                     dst.get_samples(r.shape[-1])
                 ctx.event(kind, len(src.requests))
+            elif kind == "pfb_estimate":
+                import setigen.voltage as sv_
+                fb_ = sv_.PolyphaseFilterbank(num_taps=op["T"], num_branches=op["B"])
+                ctx.event(kind, np.asarray(fb_.estimate_channelized_stds(factor=op["factor"], seed=op["seed"])))
+                if op["factor"] * op["B"] > 2 ** 24:
+                    ctx.hit("seeded_estimate_over_more_than_2**24_samples")
             elif kind == "r_estimate":
                 if op["id"] not in backends:
                     continue
